@@ -2012,7 +2012,12 @@ func (rs *RetributionStore) ForAll(cb func(*retributionInfo) error,
 				return err
 			}
 
-			tapInfoBytes := tapRetBucket.Get(k)
+			// The taproot bucket doesn't exist if the retribution
+			// was persisted by a version without taproot support.
+			var tapInfoBytes []byte
+			if tapRetBucket != nil {
+				tapInfoBytes = tapRetBucket.Get(k)
+			}
 			if tapInfoBytes != nil {
 				var tapCase taprootBriefcase
 				err := tapCase.Decode(
